@@ -1,5 +1,6 @@
 """C07 - escaped values decode back to the exact original text (DESIGN section 7 C07)."""
 import json
+from concurrent.futures import ThreadPoolExecutor
 import rig
 from rig import Infra
 
@@ -8,8 +9,8 @@ META = {
     "engine": "Escapers",
     "technique": "TLA+ reference decoders written from the standards (HTML character references, ECMAScript and JSON string literals, CSS escapes, percent-decoding) + branch-by-branch transcription of scriggo's escapers, model-checked by TLC (Decode(Escape(s)) = s for every string over per-language class alphabets); the same strings, the slice 'escape-relevant byte x every ASCII successor' and seeded random valid/invalid UTF-8 are rendered by real templates in 12 string-bearing contexts and every rendered slice is decoded and judged by the TLC Trace spec",
     "level": "model_checking",
-    "level_text": "TLC checks, for every string of up to 3 (quick) / 4 (thorough) tokens over an 18-token class alphabet per target language, that each transcribed escaper followed by the reference decoder of its context is the identity (and that the as-found CSS separator rule fails exactly on 'hex escape followed by c-f/C-F'). The exported strings, all single bytes, the pair slice (escape-relevant byte followed by each of the 128 ASCII bytes and 8 non-ASCII successors) and seeded random strings are rendered through Template.Run in 12 contexts (HTML text, 3 attribute forms, JS string in <script> and .js, JSON string, CSS string in <style> and .css, URL query value, URL path quoted/unquoted); TLC decodes each real output slice with the reference decoder and compares it with the input.",
-    "level_note": "Trusted: TLC, the Json community module, the Go driver (builds 12 fixed templates, runs them, slices the output between the fixed text, logs - no decoding in Go). The named-character-reference table of the reference holds the 55 names denoting ASCII/U+00A0 (not all 2231). Exceptions to exact equality, listed in Escapers.tla: NUL in HTML and CSS, bytes that are not valid UTF-8 outside URLs. URL path position is judged modulo pre-existing percent-escapes (reading documented in the spec). Exhaustive up to the stated token length only; <script>/<style> termination is C06.",
+    "level_text": "TLC checks, for every string of up to 2 (quick) / 3 (thorough) tokens over an 18-token class alphabet per target language and up to 3 (quick) / 5 (thorough) tokens over its 10-token core alphabet, that each transcribed escaper followed by the reference decoder of its context is the identity (and that the as-found CSS separator rule fails exactly on 'hex escape followed by c-f/C-F'). The exported strings, all single bytes, the pair slice (escape-relevant byte followed by each of the 128 ASCII bytes and 8 non-ASCII successors) and seeded random strings are rendered through Template.Run in 12 contexts (HTML text, 3 attribute forms, JS string in <script> and .js, JSON string, CSS string in <style> and .css, URL query value, URL path quoted/unquoted); TLC decodes each real output slice with the reference decoder and compares it with the input.",
+    "level_note": "Trusted: TLC, the Json community module, the Go driver (builds 12 fixed templates, runs them, slices the output between the fixed text, logs - no decoding in Go). The named-character-reference table of the reference holds the 55 names denoting ASCII/U+00A0 (not all 2231). Exceptions to exact equality, listed in Escapers.tla: NUL in HTML and CSS, bytes that are not valid UTF-8 outside URLs. URL path position is judged modulo pre-existing percent-escapes (reading documented in the spec). Exhaustive up to the stated token lengths only; <script>/<style> termination is C06.",
     "design_ref": "7/C07",
 }
 
@@ -23,65 +24,45 @@ PROPOSED_KNOWN = [
 ]
 
 FAMS = ["escapers"]
+MC_INVS = ["RoundTrip", "CssAsFoundExtent", "UrlPreIdentity"]
+PAR = max(2, min(8, rig.NCPU // 2))       # Trace shards judged by concurrent TLC processes
+RULE = ("per target language, every string of <= GenLen tokens over its 18-token class alphabet and <= GenCore tokens "
+        "over its 10-token core alphabet (exported by TLC) x the contexts of that language; every single byte x 12 contexts; "
+        "every pair (escape-relevant byte, ASCII byte 0..127 or one of 8 non-ASCII successors) x the contexts of the "
+        "language (quick) / x 12 contexts for all 53 escape-relevant bytes (thorough); seeded random valid/invalid UTF-8 "
+        "x 12 contexts; non-trivial = the rendered slice differs from the input")
 
 
-def run(ctx, replay_case=None):
-    consts = {"MaxLen": ctx.pick(3, 4), "GenLen": ctx.pick(3, 4), "AllCtl": not ctx.quick}
-    hook = None
-    replay_ids = None
-    if replay_case is not None:
-        case = dict(replay_case, id=1)
-        replay_ids = {1}
-        consts = {"MaxLen": 1, "GenLen": 0, "AllCtl": False}
+def judge(ctx, step, recs):
+    """Judge observation records with Trace_Escapers in up to PAR concurrent TLC processes.
+    Returns (bad records with 'obs' attached, summed diagnostics)."""
+    nsh = max(1, min(PAR, len(recs) // 6000))
+    size = (len(recs) + nsh - 1) // nsh if recs else 1
+    parts = [recs[k:k + size] for k in range(0, max(len(recs), 1), size)]
 
-        def hook(cases):
-            rig.write_ndjson(cases, [case])
-    rc = rig.functional(
-        ctx, fams=FAMS, mc_module="MC_Escapers", mc_consts=consts,
-        mc_invs=["RoundTrip", "CssAsFoundExtent", "UrlPreIdentity"],
-        sub="c07", trace_module="Trace_Escapers",
-        extra=ctx.pick(1500, 20000),
-        case_from_obs=lambda o: {"id": o["id"], "s": o["s"], "cx": [o["ctx"]]},
-        corrupt=corrupt,
-        nontrivial=lambda o: o["st"] == "ok" and o["out"] != o["s"],
-        sample=lambda o: {"ctx": o["ctx"], "s": rig.b2s(o["s"]), "out": rig.b2s(o["out"]), "st": o["st"]},
-        rule="per target language, every string of <= GenLen tokens over its 18-token class alphabet (exported by TLC) "
-             "x the contexts of that language; every single byte and every pair (escape-relevant byte, ASCII byte 0..127 "
-             "or one of 8 non-ASCII successors) x 12 contexts; seeded random valid/invalid UTF-8 x 12 contexts; "
-             "non-trivial = the rendered slice differs from the input",
-        cases_hook=hook, replay_ids=replay_ids, mc_timeout=ctx.pick(300, 840), shard=300000,
-    )
-    ctx.cov["bounds"] = json.dumps(consts, sort_keys=True)
-    # diagnostics written by the Trace spec (never a verdict)
-    diag = {"records": 0, "nbad": 0, "drift_asfound": 0, "drift_fixed": 0, "not_rendered": 0}
-    for d in sorted(ctx.work.glob("trace_[0-9]*/diag.ndjson")):
-        for rec in rig.read_ndjson(d):
-            for k in diag:
-                diag[k] += rec[k]
-    ctx.cov["bad_records_first_pass"] = diag["nbad"]
-    ctx.cov["not_rendered"] = diag["not_rendered"]
-    ctx.cov["ref_undefined"] = 0
-    ctx.cov["model_output_mismatch"] = {"transcription_as_found(prefixWithSpace a..b)": diag["drift_asfound"],
-                                        "transcription_with_fix(prefixWithSpace a..f)": diag["drift_fixed"]}
-    if min(diag["drift_asfound"], diag["drift_fixed"]) > 0:
-        ctx.cov["model_drift"] = ("real output differs from BOTH transcriptions on %d/%d records (diagnostic only; "
-                                  "the verdict is from the reference decoders)" % (min(diag["drift_asfound"], diag["drift_fixed"]), diag["records"]))
-    if diag["not_rendered"]:
-        kinds = {}
-        with open(ctx.work / "obs.ndjson") as f:
-            for line in f:
-                if '"st":"ok"' in line:
-                    continue
-                o = json.loads(line)
-                kinds[o["st"]] = kinds.get(o["st"], 0) + 1
-                ctx.cov.setdefault("not_rendered_example", {"ctx": o["ctx"], "s": rig.b2s(o["s"]), "st": o["st"], "text": rig.b2s(o["out"])[:200]})
-        ctx.cov["not_rendered_kinds"] = kinds
-        if kinds.get("nodelim"):
-            raise Infra("the fixed text of a template was not found around the value in %d outputs (driver assumption broken): %s"
-                        % (kinds["nodelim"], ctx.cov["not_rendered_example"]))
-    if diag["records"] and diag["not_rendered"] == diag["records"]:
-        raise Infra("no template rendered")
-    return rc
+    def one(i):
+        p = ctx.work / f"{step}_{i}.ndjson"
+        rig.write_ndjson(p, parts[i])
+        b, _ = rig.trace_judge(ctx, f"{step}_{i}", FAMS, "Trace_Escapers", p, timeout=840)
+        for x in b:
+            x["obs"] = parts[i][x["k"] - 1]
+        return b, rig.read_ndjson(ctx.work / f"{step}_{i}" / "diag.ndjson")[0]
+    with ThreadPoolExecutor(max_workers=PAR) as ex:
+        res = list(ex.map(one, range(len(parts))))
+    bads, diag = [], {}
+    for b, d in res:
+        bads += b
+        for k, v in d.items():
+            diag[k] = diag.get(k, 0) + v
+    return bads, diag
+
+
+def case_of(o):
+    return {"id": o["id"], "s": o["s"], "cx": [o["ctx"]]}
+
+
+def sample(o):
+    return {"ctx": o["ctx"], "s": rig.b2s(o["s"]), "out": rig.b2s(o["out"]), "st": o["st"]}
 
 
 def corrupt(o):
@@ -89,6 +70,103 @@ def corrupt(o):
     o["out"] = [90] + o["out"]
     o["st"] = "ok"
     return o
+
+
+def run(ctx, replay_case=None):
+    consts = {"MaxLen": ctx.pick(2, 3), "CoreLen": ctx.pick(3, 5), "GenLen": ctx.pick(2, 3), "GenCore": ctx.pick(3, 4),
+              "Full": not ctx.quick}
+    extra = ctx.pick(500, 20000)
+    if replay_case is not None:
+        extra = 0
+    # 1. model check the transcription against the reference decoders; export the cases
+    #    (a replay re-runs one stored case on the real code: no model check)
+    wd = ctx.stage("mc", FAMS)
+    cases = wd / "cases.ndjson"
+    if replay_case is not None:
+        rig.write_ndjson(cases, [dict(replay_case, id=1)])
+    else:
+        rig.write_cfg(wd / "MC_Escapers.cfg", constants=consts, invariants=MC_INVS)
+        r = ctx.tlc(wd, "MC_Escapers", workers=rig.NCPU, timeout=ctx.pick(240, 780), coverage=not ctx.quick)
+        ctx.cov.update(states=r.distinct, transitions=r.generated, mc_wall_s=round(r.wall, 1), mc_invariants=MC_INVS,
+                       bounds=json.dumps(consts, sort_keys=True))
+        if not r.ok:
+            if r.invariant_violated:
+                # counterexample on the implementation-shaped model: diagnostic; the verdict is decided on the real code
+                ctx.cov["model_counterexample"] = {"invariants": r.invariant_violated, "tlc_out": str(wd / "MC_Escapers.out")}
+            else:
+                raise Infra(f"MC_Escapers failed: {wd}/MC_Escapers.out\n" + rig.tail(r.out, 30))
+        if not ctx.quick:
+            ctx.cov["actions_never_taken"] = r.coverage_zero()
+        if not cases.exists():
+            raise Infra("no cases.ndjson exported by MC_Escapers")
+    # 2. replay into the real templates
+    obs = ctx.work / "obs.ndjson"
+    ctx.drive("c07", cases, obs, args=["-extra", str(extra)])
+    allobs = rig.read_ndjson(obs)
+    if not allobs:
+        raise Infra("the driver produced no observation")
+    notok = [o for o in allobs if o["st"] != "ok"]
+    ctx.cov.update(evaluations=len(allobs), traces_validated_against_impl=len(allobs) - len(notok),
+                   distinct_nontrivial=len({(o["ctx"], bytes(o["s"])) for o in allobs if o["st"] == "ok" and o["out"] != o["s"]}),
+                   rule=RULE, exhaustive=True, cases=len({o["id"] for o in allobs}), random_cases=extra,
+                   samples=[sample(o) for o in rig.pick_samples(allobs, 4, ctx.seed)],
+                   not_rendered=len(notok), ref_undefined=0)
+    if notok:
+        kinds = {}
+        for o in notok:
+            kinds[o["st"]] = kinds.get(o["st"], 0) + 1
+        ctx.cov["not_rendered_kinds"] = kinds
+        ctx.cov["not_rendered_example"] = dict(sample(notok[0]), out=rig.b2s(notok[0]["out"])[:200])
+        if kinds.get("nodelim"):
+            raise Infra("the fixed text of a template was not found around the value in %d outputs (driver assumption "
+                        "broken): %s" % (kinds["nodelim"], ctx.cov["not_rendered_example"]))
+        if len(notok) == len(allobs):
+            raise Infra("no template rendered: %s" % ctx.cov["not_rendered_example"])
+    # 3. judge every observation by the Trace spec
+    bads, diag = judge(ctx, "trace", allobs)
+    if diag.get("records") != len(allobs):
+        raise Infra("Trace_Escapers consumed %s of %d records" % (diag.get("records"), len(allobs)))
+    ctx.cov["bad_records_first_pass"] = diag["nbad"]
+    ctx.cov["model_output_mismatch"] = {"transcription_as_found(prefixWithSpace a..b)": diag["drift_asfound"],
+                                        "transcription_with_fix(prefixWithSpace a..f)": diag["drift_fixed"]}
+    both = min(diag["drift_asfound"], diag["drift_fixed"])
+    if both:
+        ctx.cov["model_drift"] = ("real output differs from BOTH transcriptions of the escapers on at least %d of %d records "
+                                  "(diagnostic only; the verdict is from the reference decoders)" % (both, diag["records"]))
+    # 4. reproduction guard: the failing cases again, in a fresh process, judged again - together with
+    # 5. the sensitivity self-test: corrupted observations must be rejected by the same Trace spec
+    post = []
+    if bads:
+        seen, cc = set(), []
+        for b in bads:
+            key = (b["obs"]["ctx"], bytes(b["obs"]["s"]))
+            if key not in seen:
+                seen.add(key)
+                cc.append(dict(case_of(b["obs"]), id=len(cc) + 1))
+        rig.write_ndjson(ctx.work / "confirm_cases.ndjson", cc)
+        ctx.drive("c07", ctx.work / "confirm_cases.ndjson", ctx.work / "confirm_obs.ndjson")
+        post = rig.read_ndjson(ctx.work / "confirm_obs.ndjson")
+    okobs = [o for o in allobs if o["st"] == "ok"]
+    st = [corrupt(json.loads(json.dumps(o))) for o in
+          rig.pick_samples([o for o in okobs if o["out"] != o["s"]] or okobs, 3, ctx.seed + 7)]
+    for i, o in enumerate(st):
+        o["id"] = 900001 + i
+    b2, _ = judge(ctx, "trace_post", post + st)
+    rejected = {b["obs"]["id"] for b in b2 if b["obs"]["id"] >= 900001}
+    ctx.cov["sensitivity_selftest"] = {"corrupted": len(st), "rejected": len(rejected)}
+    if len(rejected) < len(st):
+        raise Infra(f"sensitivity self-test failed: {len(st)} corrupted observations, only {len(rejected)} rejected")
+    keys2 = {json.dumps(b["sig"], sort_keys=True) for b in b2 if b["obs"]["id"] < 900001}
+    confirmed = [b for b in bads if json.dumps(b["sig"], sort_keys=True) in keys2]
+    ctx.cov["unreproduced"] = len(bads) - len(confirmed)
+    for b in confirmed:
+        b["what"] = sample(b["obs"])
+
+    # 6. verdict
+    def rw(rdir, b):
+        (rdir / "case.json").write_text(json.dumps(case_of(b["obs"])))
+        (rdir / "obs.json").write_text(json.dumps(b["obs"]))
+    return ctx.report(confirmed, replay_writer=rw)
 
 
 def replay(ctx, path):
